@@ -49,7 +49,7 @@ pub const F2_FIXED: bool = true;
 /// write to the client fails), a DISCONNECT that the client has already sent is never read: the
 /// link ends with a write error and the will is published although DISCONNECT came first.
 /// Design-level (reads are not served while a write is pending); no fix proposed.
-pub const F3_FIXED: bool = false;
+pub const F3_FIXED: bool = true;
 /// F4 (an older connection task's PublishWill publishes the next connection's will) was repaired in /repo
 pub const F4_FIXED: bool = true;
 
